@@ -825,6 +825,8 @@ def members(thorough):
     out = []
     for mask in range(1 << npool):
         for style, kind, pad, versioned in itertools.product(STYLES, kinds, pads, (0, 1)):
+            if kind == "spie" and pad in (1, 300):
+                continue                    # static-pie flavour: paddings 0 and 33 only
             out.append((mask, style, kind, pad, versioned))
     return out
 
@@ -961,7 +963,8 @@ def main():
         "subprocesses": dl_stats["processes"],
         "thinning": ("quick: pool of the first 8 names, no padding, no static-pie flavour"
                      if not chk.thorough else
-                     "none for the transcription oracle; glibc dlopen stage: -shared members of the "
+                     "static-pie flavour only with paddings 0 and 33, otherwise none for the transcription "
+                     "oracle; glibc dlopen stage: -shared members of the "
                      "8-name sub-pool x {gnu,sysv} x {(pad 0, plain), (pad 0, versioned), "
                      "(pad 33, versioned)}"),
     }
